@@ -216,6 +216,10 @@ def obs_axis(ax, toks=None):
 
 def canon_value(v):
     """python/numpy scalar -> comparable canonical form"""
+    if isinstance(v, np.ndarray) and v.ndim == 0:
+        v = v[()]          # an object array may hold a 0-d array assigned to one of its cells
+    if isinstance(v, np.generic):
+        v = v.item()
     if v is None:
         return ["N"]
     if isinstance(v, (bool, np.bool_)):
